@@ -132,6 +132,15 @@ func c07(c *Ctx) {
 			}
 			serial := r.Serial()
 			cur = a
+			if round%4 == 1 {
+				// the controller did not answer the previous call (a time-out): that is no reason to reject this one
+				d.Reset()
+				d.Script = func(adapter.Invocation) ([][]byte, error) { return nil, adapter.ErrTimeout }
+				adapter.Call(u, op.Name, serial, a, aux)
+				if gt := rm.FindOp("GetTime"); gt != nil {
+					adapter.Call(u, "GetTime", serial, rm.Vals{}, adapter.Aux{})
+				}
+			}
 			judge(op, serial, "valid", true, fmt.Sprintf("valid call %v", a), op.Request(serial, a), func() error {
 				out := adapter.Call(u, op.Name, serial, a, aux)
 				if out.Err != "" {
@@ -203,6 +212,28 @@ func c07(c *Ctx) {
 			}
 		}
 	}
+	// ---- (b') the application keeps one list of formats and passes it to every call; cards that match none of them are rejected - the
+	// first time and every time after (and the list is still what it was)
+	for _, list := range [][]types.CardFormat{{types.Wiegand26, types.Wiegand26}, {types.Wiegand26}, {types.Wiegand26, types.Wiegand26, types.Wiegand26}, {1, 1, 1, 1}} {
+		orig := fmt.Sprint(list)
+		for k := 0; k < 4; k++ {
+			cardNo := []uint32{25600001, 99999999, 4294967294, 6553600000 & 0xffffffff}[k]
+			if refCardAccepted(cardNo, 0, []uint8{1}) {
+				continue
+			}
+			serial := r.Serial()
+			card := types.Card{CardNumber: cardNo, From: types.ToDate(2024, 1, 1), To: types.ToDate(2024, 12, 31), Doors: map[uint8]uint8{1: 1, 2: 0, 3: 0, 4: 0}}
+			judge(put, serial, "format-list-reused", false, fmt.Sprintf("card %d with the application's format list %s, call %d with that list", cardNo, orig, k+1), nil, func() error {
+				_, err := u.PutCard(serial, card, list...)
+				return err
+			})
+			if now := fmt.Sprint(list); now != orig {
+				c.Res.Violate("C07:PutCard:format-list-modified", fmt.Sprintf("PutCard changed the caller's list of card formats from %s to %s", orig, now), nil, caseNo)
+				break
+			}
+		}
+	}
+
 	N := c.N(60000, 600000)
 	for i := 0; i < N; i++ {
 		card := r.U32()
